@@ -316,6 +316,16 @@ func genCase(rng *rand.Rand, p Profile) *Case {
 					add(g[0], g[j], false)
 				}
 				c.feature("fork")
+			case shape == 2 && k >= 3: // vee: several predecessors of one stop, possibly one of them direct
+				d := rng.Intn(2) == 0
+				if d {
+					c.feature("direct")
+				}
+				add(g[0], g[k-1], d)
+				for j := 1; j < k-1; j++ {
+					add(g[j], g[k-1], false)
+				}
+				c.feature("vee")
 			default: // chain, possibly with direct arcs
 				for j := 0; j+1 < k; j++ {
 					d := rng.Intn(3) == 0
